@@ -157,8 +157,27 @@ func (c *rawScn) mkSend(kind string) (hdr, body []byte, ok bool, to, skip string
 				h = c.rng.Intn(3)
 				hdr = []byte{0, 0, 0, byte(h)}
 			}
+		} else {
+			// cooked: the socket is the origin of what it sends - a header the caller left on the message (a hop count
+			// from elsewhere, garbage, any length) means nothing and does not go out
+			switch kind {
+			case "fwd":
+				hdr = []byte{0, 0, 0, 9}
+			case "fwdgone":
+				hdr = []byte{1, 2, 3, 4}
+			case "badhdr":
+				hdr = []byte{0, 0, 0, 1, 0, 0, 0, 2}
+			}
 		}
 	case "xstar":
+		if c.cfg.P.cooked {
+			switch kind {
+			case "fwd":
+				hdr = []byte{0, 0, 0, 7}
+			case "fwdgone":
+				hdr = []byte{9, 9}
+			}
+		}
 		if !c.cfg.P.cooked {
 			if kind == "nohdr" {
 				hdr, ok = []byte{0, 0}, false
@@ -549,6 +568,10 @@ func rawScripted(p rawProto) []rawCfg {
 	// a Recv that is parked while the receive queue is replaced by a longer, a shorter and an equally long one goes on
 	// waiting on the new queue: the next message from the peer is delivered to it (patterns without Recv or without the
 	// option leave the steps without effect)
+	if p.cooked {
+		// headers left on messages handed to a cooked socket (see mkSend)
+		out = append(out, rawCfg{P: p, TTL: 8, SQ: 4, RQ: 2, Steps: []string{"conn", "send fwd", "send fwdgone", "send badhdr", "send ok", "conn", "send fwd"}})
+	}
 	out = append(out, rawCfg{P: p, TTL: 8, SQ: 2, RQ: 2, Steps: []string{"conn", "recv", "rq 5", "inj p1 ok", "recv", "rq 1", "inj p1 ok",
 		"recv", "rq 1", "inj p1 ok", "recv", "recv", "rq 3", "inj p1 ok", "inj p1 ok"}})
 	return out
